@@ -138,6 +138,16 @@ func judge(c *codec, in []byte) (sig, msg string, accepted bool) {
 	if c.fixed > 0 && len(in) != c.fixed {
 		return "wrong-length-accepted:" + c.name, fmt.Sprintf("%s.FromBytes accepts %d bytes although the message is exactly %d bytes on the wire (input %x)", c.name, len(in), c.fixed, in), true
 	}
+	// variable-length messages whose length is determined by a field of known legal sizes: a
+	// tls-auth hard reset is 22 bytes plus an HMAC of one of the digest sizes OpenVPN knows
+	// (MD5 16, SHA-1/RIPEMD-160 20, the 224-bit family 28, 256-bit 32, MD5+SHA-1 36, 384-bit 48,
+	// 512-bit 64); any other length is a wrong length, to be rejected
+	if c.name == "openvpn.MessageAuth" {
+		h := len(in) - (l4openvpn.MessageAuthBytesMin - 16)
+		if !map[int]bool{16: true, 20: true, 28: true, 32: true, 36: true, 48: true, 64: true}[h] {
+			return "wrong-length-accepted:" + c.name, fmt.Sprintf("%s.FromBytes accepts %d bytes, which leaves %d bytes for the HMAC - the size of no digest (input %x)", c.name, len(in), h, in), true
+		}
+	}
 	out, err := c.enc(m)
 	if err != nil {
 		return "encode-error:" + c.name, fmt.Sprintf("%s: parsed %x but cannot serialise the result: %v", c.name, in, err), true
